@@ -62,6 +62,19 @@ def gen(ctx):
         cases.append(dict(filter=P1, vars=[("a", a), ("b", b)], kind="variant-cmp"))
         cases.append(dict(filter=P2, vars=[("a", a), ("b", b)], kind="variant-key"))
         cases.append(dict(filter=P5, vars=[("a", a), ("b", b), ("c", rng.choice(pool))], kind="variant-nested"))
+    # objects that list the same keys in the same unsorted insertion order with crossing values: values compare in the order of
+    # the sorted keys, whatever the insertion order
+    keysets = [[S("b"), S("a")], [S("c"), S("a"), S("b")], [S("z"), S("y")], [S("b"), S("a"), S("c")], [I(2), I(1)], [S("k"), NULL], [A(I(1)), A()], [TRUE, FALSE, NULL]]
+    for _ in range(150 if tier == "quick" else 2500):
+        ks = rng.choice(keysets)
+        va = [rng.choice([I(0), I(1), I(2), S("x"), NULL]) for _ in ks]
+        vb = [rng.choice([I(0), I(1), I(2), S("x"), NULL]) for _ in ks]
+        a, b = O(*zip(ks, va)), O(*zip(ks, vb))
+        if rng.random() < 0.3:
+            b = O(*reversed(list(zip(ks, vb))))
+        cases.append(dict(filter=P1, vars=[("a", a), ("b", b)], kind="obj-order-cmp"))
+        cases.append(dict(filter=P2, vars=[("a", a), ("b", b)], kind="obj-order-key"))
+        cases.append(dict(filter="[[$a, $b] | sort, min, max] == [[$b, $a] | sort, min, max]", vars=[("a", a), ("b", b)], kind="obj-order-sort"))
     # stability and consistency on arrays longer than any small-array fast path
     classes = [[I(1), F(1.0), B(1), D("1.0"), D("1e0")], [I(0), NEG_ZERO, F(0.0), B(0)], [S("a"), Y("a")], [I(2), F(2.0)],
                [O((S("a"), I(1)), (S("b"), I(2))), O((S("b"), I(2)), (S("a"), I(1))), O((S("b"), F(2.0)), (S("a"), B(1)))],
@@ -102,6 +115,29 @@ def oracle(c, impl):
             return ("trichotomy", "not exactly one of <, ==, > holds: " + sx.dumps(out))
         if le != (lt or eq) or ge != (gt or eq) or ne == eq:
             return ("derived-ops", "<=, >=, != inconsistent with <, ==, >: " + sx.dumps(out))
+    if c["kind"] == "obj-order-sort" and out != "true":
+        return ("obj-order-sort", "sort/min/max of two objects depend on their order in the array: " + sx.dumps([vs["a"], vs["b"]])[:200])
+    if c["kind"] == "obj-order-cmp":
+        def key(x):
+            if x == "null":
+                return (0,)
+            if x in ("false", "true"):
+                return (1, x == "true")
+            if x[0] == "I":
+                return (2, int(x[1]))
+            if x[0] == "S":
+                return (3, x[1])
+            if x[0] == "A":
+                return (4, tuple(key(y) for y in x[1:]))
+            raise ValueError(x)
+        ea = sorted(((key(k), key(v)) for k, v in vs["a"][1:]), key=lambda kv: kv[0])
+        eb = sorted(((key(k), key(v)) for k, v in vs["b"][1:]), key=lambda kv: kv[0])
+        va, vb = [v for _, v in ea], [v for _, v in eb]
+        want = [va < vb, va <= vb, va == vb, va != vb, va > vb, va >= vb]
+        got = [x == "true" for x in out[1:]]
+        if got != want:
+            return ("obj-order", "objects with the same keys compare by their values in the order of the sorted keys: %s vs %s gives %s, expected %s" % (
+                sx.dumps(vs["a"]), sx.dumps(vs["b"]), sx.dumps(out), want))
     if c["kind"] == "variant-nested":
         want = [["I", "1"], "true", ["I", "0"], ["I", "1"], ["I", "1"], ["I", "2"], None, "true", "true"]
         for i, w in enumerate(want):
